@@ -1,3 +1,4 @@
+import Lm.Inst.CoreTie
 import Lm.Inv.CoreSafe
 import Lm.Inv.CoreGuards
 /-! # C15 — Names unique; deny, persist and reserved-topic restrictions enforced -/
@@ -89,5 +90,11 @@ theorem C15_reserved_topic_refused (s : St) (m : ModId) (t : String) (p : Nat) (
 
 example : isSystemTopic "LIBMODULE_CTX_STARTED" = true := by decide
 example : isSystemTopic "ta" = false := by decide
+
+
+/-- tie A: the guard prefixes of the entry points this property is about, re-extracted from the source on every run,
+are the ones the model transcribes (`Lm.Inst.CoreTie`) -/
+theorem C15_guards_in_source :
+    Lm.Inst.CoreTie.slice Lm.Generated.CoreGuards.guards ["m_mod_register", "mod_deregister", "m_mod_ps_tell", "m_mod_ps_publish", "m_mod_ps_poisonpill", "m_mod_ps_subscribe", "m_mod_ps_unsubscribe"] = Lm.Inst.CoreTie.slice Lm.Inst.CoreTie.expected ["m_mod_register", "mod_deregister", "m_mod_ps_tell", "m_mod_ps_publish", "m_mod_ps_poisonpill", "m_mod_ps_subscribe", "m_mod_ps_unsubscribe"] := by decide
 
 end Lm.Props.C15
